@@ -28,10 +28,11 @@ from wikitextprocessor.core import detect_expand_template_loop  # noqa: E402
 from wikitextprocessor.parserfns import PARSER_FUNCTIONS, call_parser_function  # noqa: E402
 
 POOL = ["", " ", "a", "abc", "0", "1", "-1", "5", "²", "1.5", "-", "=", "a=b", "Talk:x", "x/y/z",
-        "../..", "%", "1" * 4301, "R", "1,234.5", "now", "@x", "Y", "#default", "\n", "٣", "e", "x" * 50]
+        "../..", "%", "1" * 4301, "R", "1,234.5", "now", "@x", "Y", "#default", "\n", "٣", "e", "x" * 50, "@inf", "@1e30",
+        "a:b"]
 POOL += [s for s in P.get("extra_strings", []) if s not in POOL]
 SLOW = {"#time", "#timel", "#dateformat", "#formatdate"}
-SKIP = {"#property", "#statements", "fullurl", "fullurle"}   # network-bound (assumed, listed)
+SKIP = {"#property", "#statements"}   # network-bound (assumed, listed)
 
 failures = {}
 evaluations = 0
@@ -132,10 +133,10 @@ t_start = time.time()
 for name in PARSER_FUNCTIONS:
     if name in SKIP:
         continue
-    pool = POOL if name not in SLOW else ["", "Y", "now", "@x", "1" * 20, "²"]
+    pool = POOL if name not in SLOW else ["", "Y", "now", "@x", "1" * 20, "²", "@inf", "@1e30", "@-1e30", "@nan"]
     vecs = [()] + [(a,) for a in pool] + [(a, b) for a in pool for b in pool]
     if name in SLOW:
-        vecs = vecs[:30]
+        vecs = vecs[:60]
     n3 = 150 if tier == "quick" else 3000
     vecs += [tuple(rng.choice(pool) for _ in range(rng.randint(3, 5))) for _ in range(n3 if name not in SLOW else 10)]
     titles = ["Tt"] + (["Talk:x", "Main:y", "Template:z", ":q"] if name.isupper() else [])
@@ -317,5 +318,5 @@ emit({"evaluations": evaluations, "distinct_nontrivial": len(distinct),
       "failures": list(failures.values()), "samples": samples,
       "bound": f"arity<=2 exhaustive over {len(POOL)} strings, arity 3-5 sampled; #expr soups len<=2/3 exhaustive over "
                f"{len(TOK)} tokens + random to 9; all call graphs on <= {nmax} templates (sampled above the cap); "
-               "network-bound functions (#property, #statements, fullurl) skipped",
+               "network-bound functions (#property, #statements) skipped",
       "secs": round(time.time() - t_start, 1)})
